@@ -265,7 +265,12 @@ impl<T: Qcow2IoOps> Qcow2Dev<T> {
                 let buf = unsafe {
                     std::slice::from_raw_parts_mut(slice.as_mut_ptr(), slice.byte_size())
                 };
-                self.call_read(off, buf).await?;
+                if let Err(e) = self.call_read(off, buf).await {
+                    // not loaded: let the next user of this pending entry
+                    // retry, instead of taking it as update
+                    slice.set_offset(None);
+                    return Err(e);
+                }
                 log::trace!("add_cache_slice: load from disk");
             } else {
                 entry.set_dirty(true);
